@@ -190,12 +190,28 @@ UNLISTED_WEIGHT = {  # the only declared weight sits on a nested abstract type t
 }
 
 
+W_UNPRODUCTIVE = {  # a weighted rule next to a production that cannot be completed (its field's type has no production here)
+    "name": "w_uncompletable_sibling",
+    "abstracts": [{"name": "Expr", "parent": None, "style": "abc"}, {"name": "BoolExpr", "parent": None, "style": "abc"}],
+    "prods": [
+        {"name": "Legacy", "parent": "Expr", "fields": [], "weight": 0},
+        {"name": "Truthy", "parent": "Expr", "fields": [["cond", ["ref", "BoolExpr"]]]},
+        {"name": "Lit", "parent": "Expr", "fields": [["v", ["ann", ["int"], ["IntRange", 0, 3]]]], "weight": 3},
+        {"name": "Neg", "parent": "Expr", "fields": [["e", ["ref", "Expr"]]]},
+    ],
+    "start": "Expr",
+}
+
+
 def run_case(case, rec):
     HOLDER["rec"] = rec
     desc = grammars.gen_descriptor(case["seed"] * 7919 + case["i"], "weighted")
     if case["i"] % 25 == 7:
         desc = dict(TWO_BASES)
         rec.count("hierarchies_with_a_two_base_production")
+    if case["i"] % 25 == 19:
+        desc = dict(W_UNPRODUCTIVE)
+        rec.count("hierarchies_with_an_uncompletable_sibling")
     if case["i"] % 25 == 13:
         desc = dict(UNLISTED_WEIGHT)
         rec.count("hierarchies_whose_only_weight_is_on_an_unlisted_class")
